@@ -44,6 +44,11 @@ def showWrite : Write String String → String
   | .putDb k v => "db put " ++ k ++ " " ++ v
   | .delDb k => "db del " ++ k
 
+/-- The persistent writes of `commit(b)`: order within a key as issued, keys in byte order (the order across keys
+is a hash-map iteration order on the implementation side). -/
+def showWrites (t : T) (b : Nat) : String :=
+  ";".intercalate (((sortKH t.cache).flatMap (fun p => Table.keyWrites W b p.1 p.2)).map showWrite)
+
 def stepT (t : T) (ws : List String) : Option T × String :=
   match ws with
   | ["set", b, k, v] =>
@@ -57,12 +62,12 @@ def stepT (t : T) (ws : List String) : Option T × String :=
   | ["latest", k] => (some t, showOpt (t.latest k))
   | ["range", lo, hi] => (some t, "[" ++ showKV (t.getRange slt lo hi) ++ "]")
   | ["all"] => (some t, "[" ++ showKV (t.all slt) ++ "]")
-  | ["commit", b] => (some (t.commit W b.toNat!), "ok")
+  | ["commit", b] => (some (t.commit W b.toNat!), "ok " ++ showWrites t b.toNat!)
   | ["clear"] => (some t.clear, "ok")
   | ["reopen"] => (some t.reopen, "ok")
   | ["reorg", n] =>
-    match t.reorg W n.toNat! with
-    | some t' => (some t', "ok")
+    match t.reorgLoad n.toNat! t.reorgKeys with
+    | some tl => (some (tl.commit W n.toNat!), "ok " ++ showWrites tl n.toNat!)
     | none => (none, "panic")
   | ["dump"] => (some t, dump t)
   | _ => (some t, "bad-op")
